@@ -113,7 +113,7 @@ func init() {
 			for _, r := range res {
 				// every call twice: the instantiated arguments written in the goal, and reached through variables bound by earlier goals
 				// ... and with the list arguments written as chains of './2 cells (another run-time representation)
-				for _, o := range []map[string]string{nil, {"indirect": "1"}, {"cells": "1", "indirect": "1"}} {
+				for _, o := range []map[string]string{nil, {"indirect": "1"}, {"cells": "1", "indirect": "1"}, {"spine": "1"}} {
 					cases, results := c.replay("builtins", r.cases, replayOpts{chunk: 8, opts: o})
 					c.judge("builtins", cases, results, func(cs, res map[string]J) string {
 						for _, a := range cs["pat"].([]J) {
